@@ -116,6 +116,36 @@ fn ifelse<T: Val>(toks: &[&str], out: &mut Vec<String>) -> R<()> {
     two(&s, out);
     Ok(())
 }
+/// `st ifelsemx f <cond> <a> <b>`: `IfElse(armed, If(armed, a), If(Not(armed), b))` where `armed` is ONE getter behind a
+/// Mutex-backed `Reference` shared by the outer stream and both branches: a combinator that keeps its borrow of the condition alive
+/// while it reads the selected branch blocks forever here (a `Mutex` is not re-entrant). Same answers as `st ifelse`.
+#[cfg(feature = "std")]
+fn ifelse_shared_mutex(toks: &[&str], out: &mut Vec<String>) -> R<()> {
+    want(toks, 6)?;
+    if toks[2] != "f" {
+        return Err(NoImpl);
+    }
+    let c = Output::<bool, E>::dec(toks[3])?;
+    let a = Output::<f32, E>::dec(toks[4])?;
+    let b = Output::<f32, E>::dec(toks[5])?;
+    let armed: Reference<Script<bool>> = arc_mutex_reference(Script { cur: c });
+    let on_true = rc_ref_cell_reference(IfStream::<f32, Script<bool>, Script<f32>, E>::new(armed.clone(), mk(a)));
+    let not_armed = rc_ref_cell_reference(NotStream::<Script<bool>, E>::new(armed.clone()));
+    let on_false = rc_ref_cell_reference(IfStream::<f32, NotStream<Script<bool>, E>, Script<f32>, E>::new(not_armed, mk(b)));
+    let s = IfElseStream::<
+        f32,
+        Script<bool>,
+        IfStream<f32, Script<bool>, Script<f32>, E>,
+        IfStream<f32, NotStream<Script<bool>, E>, Script<f32>, E>,
+        E,
+    >::new(armed, on_true, on_false);
+    two(&s, out);
+    Ok(())
+}
+#[cfg(not(feature = "std"))]
+fn ifelse_shared_mutex(_toks: &[&str], _out: &mut Vec<String>) -> R<()> {
+    Err(NoImpl)
+}
 fn expirer<T: Val>(toks: &[&str], out: &mut Vec<String>) -> R<()> {
     want(toks, 6)?;
     let i = Output::<T, E>::dec(toks[3])?;
@@ -209,7 +239,7 @@ pub fn run(toks: &[&str], out: &mut Vec<String>) -> R<()> {
     }
     let known = matches!(
         op,
-        "sum" | "prod" | "latest" | "sum2" | "prod2" | "diff" | "quot" | "if" | "ifelse" | "expirer" | "n2e"
+        "sum" | "prod" | "latest" | "sum2" | "prod2" | "diff" | "quot" | "if" | "ifelse" | "ifelsemx" | "expirer" | "n2e"
             | "n2v" | "none" | "const" | "tgfg"
     );
     if !known {
@@ -226,6 +256,7 @@ pub fn run(toks: &[&str], out: &mut Vec<String>) -> R<()> {
         "quot" => by_fq!(ty, quot, toks, out),
         "if" => by_all!(ty, if_, toks, out),
         "ifelse" => by_all!(ty, ifelse, toks, out),
+        "ifelsemx" => ifelse_shared_mutex(toks, out),
         "expirer" => by_all!(ty, expirer, toks, out),
         "n2e" => by_all!(ty, n2e, toks, out),
         "n2v" => by_all!(ty, n2v, toks, out),
